@@ -344,7 +344,6 @@ class LibModel(Model):
 def admission(ctx):
     """add_authorization_authority / add_authorization_ticket / add_own_certificate / add_root_certificate with an arbitrary offered certificate
     (with an arbitrary attached issuer object): whatever enters the store verifies under an issuer that was already trusted"""
-    nope = lambda v: (True, "a certificate entered the trust store without verifying under an already trusted issuer (logic-level model)")
     for method, store in (("add_authorization_authority", "aas"), ("add_authorization_ticket", "ats"), ("add_own_certificate", "own")):
         M = LibModel()
         I, K = M.I, M.K
@@ -412,8 +411,28 @@ def admission(ctx):
     was_added = M.added("roots", M.hid_of(cand.d))
     own_key = I.container_get(I.container_get(cand.tbs, "verifyKeyIndicator", TRUE), 1, TRUE)
     selfok = z3.And(cand.v["issuer_kind"] == 0, K.V(K.inj("EncTbsCert", cand.tbs), K.inj("SigVal", I.container_get(cand.d, "signature", TRUE)), K.inj("KeyVal", own_key)))
+    sc_root = Scenario(M, {"root": M.root, "aa": M.aa, "known_at": M.at, "offered": cand})
+    vars_.update(sc_root.extra)
+
+    def replay_root(vals):
+        try:
+            with fake_coder():
+                dicts, backend, hid = sc_root.build(vals)
+                lib = real_library(vals, dicts, backend)
+                before = dict(lib.known_root_certificates)
+                others = (dict(lib.known_authorization_authorities), dict(lib.known_authorization_tickets), dict(lib.own_certificates))
+                try:
+                    lib.add_root_certificate(Certificate(certificate=dicts["offered"]))
+                except Exception as e:          # noqa
+                    return dicts["offered"]["issuer"][0] != "sha384AndDigest", f"add_root_certificate raised {type(e).__name__}: {e}"
+                new = [k for k in lib.known_root_certificates if k not in before]
+                ok = dicts["offered"]["issuer"][0] == "self" and bool(vals["_V_offered_offered"])
+                untouched = others == (lib.known_authorization_authorities, lib.known_authorization_tickets, lib.own_certificates)
+                return (bool(new) and not ok) or not untouched, f"add_root_certificate: offered {summary(dicts['offered'])}: admitted={bool(new)}, self-signed and verifying under its own key={ok}"
+        finally:
+            sc_root.done()
     ctx.witness("add_root_certificate-reach", I, was_added, vars=vars_)
-    ctx.prove("add_root_certificate-only-properly-self-signed", I, z3.And(was_added, z3.Not(selfok)), vars=vars_, replay=nope,
+    ctx.prove("add_root_certificate-only-properly-self-signed", I, z3.And(was_added, z3.Not(selfok)), vars=vars_, replay=replay_root,
               desc="a configured root enters the store only if it is self-signed and the signature predicate holds under its own key")
     ctx.bound("trust store with one root, one AA, one known AT (each present or not, content symbolic); offered certificate and its attached issuer object arbitrary")
     ctx.stub("as K2")
@@ -429,7 +448,6 @@ def chains(ctx):
 
 def _chains(ctx, learning_only):
     """learning_only: only the obligation of C05 'a ticket that arrived in a message and was accepted is known afterwards'"""
-    nope = lambda v: (True, "verify_sequence_of_certificates accepted / learnt a certificate that does not verify under an already trusted issuer (logic-level model)")
     for n in (1, 2):
         M = LibModel()
         I, K = M.I, M.K
